@@ -54,3 +54,14 @@ Fixpoint first_bad (s : st) (its : list item) (i : nat) : option nat :=
   end.
 
 Definition check_case (its : list item) : bool := replay init its.
+
+(* the same against the repaired order of __exit__ (model step_late: wait() first, rmtree after), used when
+   the implementation is observed to still have its backup at the time wait() is called (fixes/C16-1.diff) *)
+Fixpoint replay_late (s : st) (its : list item) : bool :=
+  match its with
+  | [] => true
+  | Ev e :: r => match step_late s e with Some s' => replay_late s' r | None => false end
+  | Blocked e :: r => match step_late s e with None => replay_late s r | Some _ => false end
+  | Obs o :: r => obs_eqb s o && replay_late s r
+  end.
+Definition check_case_late (its : list item) : bool := replay_late init its.
